@@ -19,6 +19,7 @@ import Pms.Props.C09Mod
 #print axioms Pms.Boo.C09_Ql_bounds
 #print axioms Pms.Boo.C09_w_def
 #print axioms Pms.Boo.C09_w_source
+#print axioms Pms.Boo.C09_w_odd_zero
 #print axioms Pms.Boo.C09_wcap_def
 #print axioms Pms.Boo.C09_timecorr_def
 #print axioms Pms.Boo.C09_corr_def
